@@ -284,6 +284,13 @@ def r11_4(prog, out):
                         out.violation(key, adt["span"], "%s.%s keeps a strong Arc<Topic>: a deleted topic stays alive and its subscriptions never report it as deleted" % (short_ty(path), f["name"]))
     for k, f in (("Subscription", "topic"), ("SubscriptionActor", "topic")):
         fty = A.field_ty(k, f)
+        # a private newtype around the reference (struct AttachedTopic(Weak<Topic>)) is the reference
+        for _ in range(3):
+            adt2 = prog.facts.adt(fty) if fty.startswith("crate::") else None
+            if adt2 is not None and len(adt2["variants"]) == 1 and len(adt2["variants"][0]["fields"]) == 1:
+                fty = adt2["variants"][0]["fields"][0]["ty"]
+            else:
+                break
         key = "weak:%s.%s" % (k, f)
         if fty.startswith("std::sync::Weak<%s" % topic):
             out.holds(key, "", "Weak<Topic>")
